@@ -13,6 +13,14 @@ func init() {
 }
 
 func vStdCfg(prefix, idBase string, nDocs int, wide int) gCfg {
+	if vParam("comp", 0) == 1 {
+		// the second field is a composite field whose locations name the (always present) first field
+		return gCfg{prefix: prefix, idBase: idBase, nDocs: nDocs, wide: wide, maxAP: 1, idDV: true,
+			fields: []gField{
+				{name: "f", terms: []string{""}, tv: true, maxLocs: 1, dv: true, store: true, always: true},
+				{name: "c", terms: []string{"é"}, tv: true, maxLocs: 1, comp: true, locField: "f"},
+			}}
+	}
 	if vParam("lite", 0) == 1 {
 		return gCfg{prefix: prefix, idBase: idBase, nDocs: nDocs, wide: wide, maxAP: 1, idDV: true,
 			fields: []gField{
